@@ -1,7 +1,9 @@
 (* C16 - lists, maps, sets, strings and byte_slices behave as the abstract containers they present.
    Property theorems only; proofs are in proofs/ContainersProofs.v.  [cstep]/[crun] is the model of the code
-   (Go slices with in-place append / shift / reverse, one shared index object in list.map); [astep]/[arun] are
-   the reference containers (plain lists, fresh values).  gen/GenResolveIndex.v is regenerated from
+   (Go slices with in-place append / shift / reverse); [astep]/[arun] are the reference containers (plain
+   lists).  The two defects this check found (list.map reusing one index object, byte_slice slices sharing
+   the array) are repaired in the code (13e5047, ee24db1); the model follows the repaired code and the
+   refinement theorems hold without guards.  gen/GenResolveIndex.v is regenerated from
    object/list.go by harness/cmd/c16tr on every run. *)
 From Coq Require Import List Bool ZArith Lia Permutation.
 Require Import RV.model.Ops RV.model.Containers RV.proofs.OpsProofs RV.proofs.ContainersProofs.
@@ -49,28 +51,26 @@ Proof. intros. rewrite C16_gen_resolve_slice. apply resolve_slice_core_spec. ass
 
 (* ---------------------------------------------------------------- refinement, for all operation sequences *)
 
-(* The full statement is false of the code: list.map hands every callback the same index object. *)
-Theorem C16_refuted_map_index : exists ops,
-  snd (crun [] ops) <> snd (arun [] ops).
-Proof.
-  exists [NewList [VStr [97]; VStr [98]; VStr [99]]; MapCb 0 CbIdx; Get 1 (VInt 0)].
-  vm_compute. discriminate.
-Qed.
-
-(* Outside that class - list.map callbacks that let their index argument escape - the code's containers
-   (Go slices: in-place append, delete by shifting, Insert by append+copy, Reverse by swapping, sort
-   written back in place; maps and sets by key) give, after every operation sequence from every
-   well-formed store, the outputs of the reference containers and a store that abstracts to theirs. *)
+(* The code's containers (Go slices: in-place append, delete by shifting, Insert by append+copy, Reverse by
+   swapping, sort written back in place; maps and sets by key; list.map / filter / each callbacks, a fresh
+   index per call) give, after every operation sequence from every well-formed store, the outputs of the
+   reference containers and a store that abstracts to theirs. *)
 Theorem C16_refines : forall ops (s : list (obj gslice)),
-  wf_store s -> no_escape ops = true ->
+  wf_store s ->
   arun (abs_store s) ops = (abs_store (fst (crun s ops)), snd (crun s ops)) /\ wf_store (fst (crun s ops)).
 Proof. exact refines. Qed.
 
-(* The same for a single step: every operation other than the escaping list.map refines. *)
+(* The same for a single step. *)
 Theorem C16_step_refines : forall o (s : list (obj gslice)),
-  wf_store s -> escapes_index o = false ->
+  wf_store s ->
   astep (abs_store s) o = (abs_store (fst (cstep s o)), snd (cstep s o)) /\ wf_store (fst (cstep s o)).
 Proof. exact step_refines. Qed.
+
+(* An index that escapes a list.map callback keeps its value (the former witness of the defect). *)
+Theorem C16_map_index_escapes_intact :
+  snd (crun [] [NewList [VStr [97]; VStr [98]; VStr [99]]; MapCb 0 CbIdx; Get 1 (VInt 0); Get 1 (VInt 2)])
+  = [RRef 0; RRef 1; RVal (VInt 0); RVal (VInt 2)].
+Proof. vm_compute. reflexivity. Qed.
 
 (* The list operations themselves: each in-place Go-slice algorithm computes the list function it names. *)
 Theorem C16_slice_ops_refine_lists : laws go_lops g_wf.
@@ -184,26 +184,18 @@ Proof. exact set_mem_inter. Qed.
 
 (* ---------------------------------------------------------------- byte_slices *)
 
-(* The full statement is false of the code: a slice of a byte_slice shares the backing array. *)
-Theorem C16_refuted_byteslice_alias : exists ops,
-  babs (fst (brun (BS [] []) ops)) <> fst (rbrun [] ops).
-Proof.
-  exists [BNew [1; 2; 3; 4]; BSlice 0 (Some (VInt 1)) (Some (VInt 3)); BSetItem 1 (VInt 0) (VStr [120])].
-  vm_compute. discriminate.
-Qed.
-
-(* Without item assignment, byte_slices (index, slice with shared arrays, clone, len, +) refine
-   independent byte strings for all operation sequences. *)
-Theorem C16_byteslice_refines : forall ops st, bwf st -> forallb (fun o => negb (is_bset o)) ops = true ->
-  rbrun (babs st) ops = (babs (fst (brun st ops)), snd (brun st ops)) /\ bwf (fst (brun st ops)).
-Proof. exact brun_refines. Qed.
-
-(* And byte_slices that are never sliced own their arrays: with item assignment but without slicing they
-   refine independent byte strings too.  (The two theorems together: only a slice followed by an item
-   assignment can go wrong.) *)
-Theorem C16_byteslice_unsliced_refines : forall ops st, bown st -> forallb (fun o => negb (is_bslice o)) ops = true ->
+(* byte_slices (index, slice, item assignment, clone, len, +) refine independent byte strings for all
+   operation sequences: every byte_slice owns its array, slices included. *)
+Theorem C16_byteslice_refines : forall ops st, bown st ->
   rbrun (babs st) ops = (babs (fst (brun st ops)), snd (brun st ops)) /\ bown (fst (brun st ops)).
 Proof. exact brun_own_refines. Qed.
+
+(* Assigning to a slice leaves the original alone, and the other way round (the former witness). *)
+Theorem C16_byteslice_slice_independent :
+  babs (fst (brun (BS [] []) [BNew [1; 2; 3; 4]; BSlice 0 (Some (VInt 1)) (Some (VInt 3));
+                              BSetItem 1 (VInt 0) (VStr [120]); BSetItem 0 (VInt 2) (VStr [121])]))
+  = [[1; 2; 121; 4]; [120; 3]].
+Proof. vm_compute. reflexivity. Qed.
 
 (* ---------------------------------------------------------------- strings are indexed and sliced by code point *)
 
@@ -230,16 +222,12 @@ Proof. exact cp_get_spec. Qed.
 
 Example C16_wf_store_sat : wf_store [OList (GS [VInt 1; VInt 2; VNil] 2); OMap []; OSet []].
 Proof. repeat constructor. Qed.
-Example C16_no_escape_sat : no_escape [Append 0 (VInt 1); MapCb 0 CbIdxCopy; Slice 0 None (Some (VInt (-1)))] = true.
-Proof. reflexivity. Qed.
 Example C16_inplace_delete : g_delete (GS [VInt 1; VInt 2; VInt 3] 3) 0 = GS [VInt 2; VInt 3; VInt 3] 2.
 Proof. reflexivity. Qed.
 Example C16_run_example :
   snd (crun [] [NewList [VInt 1; VInt 2; VInt 3]; Insert 0 (VInt (-1)) VNil; Pop 0 (VInt 0); Get 0 (VInt (-1))])
   = [RRef 0; RRef 0; RVal (VInt 1); RVal (VInt 3)].
 Proof. vm_compute. reflexivity. Qed.
-Example C16_bwf_sat : bwf (BS [[1; 2; 3]] [BO 0 1 2]).
-Proof. repeat constructor. Qed.
 Example C16_valid_cps_sat : forallb valid_cp [104; 233; 19990; 128512] = true /\ valid_cp 55296 = false.
 Proof. split; reflexivity. Qed.
 Example C16_str_example : str_get (utf8_string [104; 233; 19990]) (VInt (-1)) = Ok (VStr [228; 184; 150]).
